@@ -401,8 +401,22 @@ func c15Reader(r *rt.Rec, rng *rand.Rand, n int) {
 		"/u<b>\t\"p\"@[]\t\"-2.5\"^^type:float64",
 	}
 	bad := []string{"garbage", "/u<a>\t\"p\"@[]", "/u<a>\t\"p\"@[]\t\"x\"^^type:foo", "/u<a>\t\"p\"@[2016]\t/u<b>", "u<a>\t\"p\"@[]\t/u<b>", "/u<a>\t\"p\"@[]\t\"5\"^^type:bool", "\"p\"@[]\t/u<b>", "/u<a>\t\"p\"@[]\t\"[1 2\"^^type:blob x"}
+	// well-formed lines longer than any reader buffer (4 KiB, 64 KiB): a long line
+	// is not a malformed line
+	long := append([]string{}, valid...)
+	for _, l := range []int{4000, 4096, 5000, 66000} {
+		long = append(long, "/u<a>\t\"long\"@[]\t\""+strings.Repeat("x", l)+"\"^^type:text", "/u<"+strings.Repeat("n", l)+">\t\"p\"@[]\t/u<b>")
+	}
+	short := valid
 	for k := 0; k < n; k++ {
+		valid = short
+		if k%5 == 4 {
+			valid = long
+		}
 		nl := 1 + rng.Intn(7)
+		if k%40 == 39 {
+			nl = 200 + rng.Intn(300) // a file much larger than any buffer
+		}
 		badPos := rng.Intn(nl + 1) // == nl: no malformed line
 		eol := "\n"
 		if rng.Intn(3) == 0 {
